@@ -297,6 +297,13 @@ def outcomes_of_local(body, local, extra_transparent=None, max_iter=50):
                     if dl not in car:
                         car[dl] = not car[o["p"]["l"]]
                         changed = True
+            elif k == "agg" and rv.get("adt") == "core::task::poll::Poll" and rv.get("variant") == "Ready" and rv["ops"]:
+                # `Poll::Ready(value)`: the wrapper an inlined `async fn` hands its result back in
+                o = rv["ops"][0]
+                if "p" in o and o["p"]["l"] in car and not o["p"]["proj"]:
+                    if dl not in car:
+                        car[dl] = car[o["p"]["l"]]
+                        changed = True
             elif k == "discr":
                 o = rv["ops"][0]
                 if o["p"]["l"] in car and _transparent_field(o["p"]["proj"]):
@@ -677,6 +684,60 @@ def forward(body, start_locals, declassify=None, max_iter=100, start_upvars=()):
 # return-value writes
 # ------------------------------------------------------------------------------------------------
 
+def _value_sources(body, op, via, depth, seen):
+    """leaf definitions of the value read by `op`: Result/Option aggregates and call results; None when something else defines it"""
+    p = op_place(op)
+    if p is None or depth > 8:
+        return None
+    proj = [e for e in p["proj"] if e != "*"]
+    ready = False
+    if proj:
+        if len(proj) == 2 and isinstance(proj[0], dict) and proj[0].get("n") == "Ready" and isinstance(proj[1], dict) and proj[1].get("f") == 0:
+            ready = True
+        else:
+            return None
+    key = (p["l"], ready)
+    if key in seen:
+        return []
+    seen.add(key)
+    ds = [d for d in body.defs().get(p["l"], []) if d["kind"] != "mutarg"]
+    if not ds or any(d.get("proj") for d in ds):
+        return None
+    out = []
+    for d in ds:
+        if d["kind"] == "assign":
+            rv = d["rv"]
+            if ready:
+                if rv["k"] == "agg" and rv.get("adt") == "core::task::poll::Poll" and rv.get("variant") == "Ready" and rv["ops"]:
+                    r = _value_sources(body, rv["ops"][0], via, depth + 1, seen)
+                elif rv["k"] == "use":
+                    q = op_place(rv["ops"][0])
+                    r = _value_sources(body, {"p": {"l": q["l"], "proj": list(q["proj"]) + list(p["proj"])}}, via, depth + 1, seen) if q is not None else None
+                else:
+                    # the poll of a future that was not inlined
+                    return None
+                if r is None:
+                    return None
+                out += r
+            elif rv["k"] == "agg" and rv.get("adt") in ("core::result::Result", "core::option::Option"):
+                out.append({"bi": d["bi"], "kind": rv["variant"], "rv": rv, "via": via})
+            elif rv["k"] == "use":
+                r = _value_sources(body, rv["ops"][0], via, depth + 1, seen)
+                if r is None:
+                    return None
+                out += r
+            else:
+                return None
+        elif d["kind"] == "call":
+            if ready:
+                return None
+            dd = callee_def(d["term"])
+            out.append({"bi": d["bi"], "kind": "residual" if dd.endswith("FromResidual::from_residual") else "call", "term": d["term"], "via": via})
+        else:
+            return None
+    return out
+
+
 def return_writes(body, _depth=0):
     """every write to the return place on the normal path: list of dicts
     {'bi','kind': 'Ok'|'Err'|'Some'|'None'|'call'|'use'|'other', 'rv'|'term', 'via_residual': bool}"""
@@ -689,23 +750,9 @@ def return_writes(body, _depth=0):
                 if rv["k"] == "agg" and rv.get("agg") == "adt" and rv.get("adt") in ("core::result::Result", "core::option::Option"):
                     out.append({"bi": bi, "kind": rv["variant"], "rv": rv})
                 elif rv["k"] == "use":
-                    # `_0 = move _x` where _x is only ever assigned Ok/Err/Some/None literals or call results: those assignments are the writes
-                    p = op_place(rv["ops"][0])
-                    expanded = None
-                    if p is not None and not p["proj"] and _depth < 3:
-                        ds = [d for d in body.defs().get(p["l"], []) if d["kind"] != "mutarg"]
-                        if ds and all(not d.get("proj") for d in ds):
-                            tmp = []
-                            for d in ds:
-                                if d["kind"] == "assign" and d["rv"]["k"] == "agg" and d["rv"].get("adt") in ("core::result::Result", "core::option::Option"):
-                                    tmp.append({"bi": d["bi"], "kind": d["rv"]["variant"], "rv": d["rv"], "via": bi})
-                                elif d["kind"] == "call":
-                                    dd = callee_def(d["term"])
-                                    tmp.append({"bi": d["bi"], "kind": "residual" if dd.endswith("FromResidual::from_residual") else "call", "term": d["term"], "via": bi})
-                                else:
-                                    tmp = None
-                                    break
-                            expanded = tmp
+                    # `_0 = move _x` where _x is only ever assigned Ok/Err/Some/None literals or call results (possibly through further copies
+                    # and through the `Poll::Ready(..)` wrapper of an inlined `async fn`): those assignments are the writes
+                    expanded = _value_sources(body, rv["ops"][0], bi, 0, set()) if _depth < 3 else None
                     if expanded and any("rv" in e for e in expanded):
                         out += expanded
                     else:
